@@ -204,10 +204,18 @@ pub fn run(thorough: bool) -> Report {
     }
     let full = full_menu();
     let core = core_menu();
-    let mut fams: Vec<(&Vec<(&'static str, T)>, usize, bool)> = vec![(&full, 2, true), (&core, 3, false)];
+    let arr = array_menu();
+    let nest = nest_menu();
+    let fnm = fn_menu();
+    let brm = branch_menu();
+    let mut fams: Vec<(&Vec<(&'static str, T)>, usize, bool)> = vec![(&full, 2, true), (&core, 3, false), (&arr, 3, false), (&nest, 4, false), (&fnm, 3, false), (&brm, 3, true)];
     if thorough {
         fams.push((&full, 3, false));
         fams.push((&core, 4, false));
+        fams.push((&arr, 4, false));
+        fams.push((&nest, 5, false));
+        fams.push((&fnm, 4, false));
+        fams.push((&brm, 4, true));
     }
     for (menu, n, all) in &fams {
         let base = menu.len() as u64;
